@@ -132,7 +132,7 @@ def strategy_(draw, tier):
                          kind=draw(st.sampled_from(["file", "tree", "link"])), mut=mut))
     shape = "".join({"lit": "l", "star": "*", "q": "?", "set": "s", "range": "r"}[p[0]] for p in pieces)
     return {"layout": tw.layout, "uid": tw.uid, "pattern": pattern, "ents": ents, "shape": shape,
-            "fullpath": fullpath}
+            "fullpath": fullpath, "tv": draw(st.sampled_from([None, None, "plain", "empties"]))}
 
 
 def strategy(tier):
@@ -151,7 +151,11 @@ def run_case(case):
     sandbox.build_world(spec)
     before = sandbox.snapshot()
     pat = case["pattern"]
-    res = runner.run(spec, "trash-rm", [pat])  # trash-rm takes argv[1] verbatim
+    env = {}
+    if case.get("tv"):
+        allv = ["/"] + list(vols)
+        env["TRASH_VOLUMES"] = ":".join(allv) if case["tv"] == "plain" else "::" + "::".join(allv) + ":"
+    res = runner.run(spec, "trash-rm", [pat], env=env)  # trash-rm takes argv[1] verbatim
     after = sandbox.snapshot()
     nmatch = nnon = 0
     tags = dict(mode="full" if pat.startswith("/") else "base")
